@@ -504,7 +504,18 @@ func (w *World) forgeProofKind(b int, h, below uint64, kind int) (Proof, *Block,
 	sg := w.signer(b)
 	own := Sig{sg.Id(), sg.Msg(h, refBuilder(protocol.LEAN_HELIX_PREPARE, w.instance, h, p.Ref.V, p.Ref.Hash).Build().Raw())}
 	if kind < 0 {
-		kind = w.ch.Pick("fp-kind", 7)
+		kind = w.ch.Pick("fp-kind", 8)
+	}
+	if kind == 7 {
+		// an "unsigned proof": two block references for a block nobody ever validated, no PREPREPARE signer, no
+		// PREPARE signers
+		x := w.freshBlock(h, b, w.ch.Pick("fp-poison", 2) == 1)
+		pr.PP = Ref{Type: protocol.LEAN_HELIX_PREPREPARE, Instance: w.instance, H: h, V: p.Ref.V, Hash: x.Hash()}
+		pr.P = Ref{Type: protocol.LEAN_HELIX_PREPARE, Instance: w.instance, H: h, V: p.Ref.V, Hash: x.Hash()}
+		pr.PPSig = Sig{}
+		pr.PSigs = nil
+		w.use("byz.proof-unsigned")
+		return pr, x, true
 	}
 	if kind == 6 {
 		// spliced proof: genuine PREPARE signatures of view u1 under a PREPREPARE reference for the same block hash in
@@ -596,6 +607,10 @@ func (w *World) advVote(b int, h, v uint64, tag string) bool {
 			if c.msg.Vote.Proof.PP.V < nv {
 				pr = c.msg.Vote.Proof
 				blk = c.raw.Block
+				if w.ch.Pick("vote-other-block", 4) == 3 {
+					blk = w.freshBlock(h, b, false) // a genuine certificate with ANOTHER block attached to the vote
+					w.use("byz.vote-genuine-proof-other-block")
+				}
 			}
 		}
 		if !pr.Present && w.ch.Pick("vote-block-no-proof", 3) == 2 {
@@ -1126,7 +1141,14 @@ func (w *World) mutateMsg(b int, s *SentRec) *interfaces.ConsensusRawMessage {
 		case 6:
 			blk = w.freshBlock(m.NVH, b, false)
 		case 7:
-			blk = nil
+			if known := w.blocks[string(m.Ref.Hash)]; known != nil && (s.raw.Block == nil || !sameBytes(asBlock(s.raw.Block).Hash(), m.Ref.Hash)) {
+				// the unsigned block part swapped for the block the signed hash commits to (a NEW_VIEW that honest
+				// members rejected for its attachment becomes acceptable; every signature in it is genuine)
+				blk = known
+				w.use("byz.nv-attachment-repaired")
+			} else {
+				blk = nil
+			}
 		}
 		ppHdr := refBuilder(protocol.LEAN_HELIX_PREPREPARE, m.Ref.Instance, m.Ref.H, ppV, ppHash)
 		ppSig := m.PPSender
